@@ -671,6 +671,8 @@ class Interp(object):
             o.attrs[name] = v
         elif isinstance(o, ClassV):
             o.attrs[name] = v
+        elif type(o).__name__ == 'ActionV':
+            o.attrs[name] = v          # e.g. action.complete = TRASH_DIRS
         elif isinstance(o, (Opaque, LibModule, FuncV)):
             # e.g. action.complete = ..., Action.complete = None: ignored
             if isinstance(o, FuncV):
@@ -1012,17 +1014,16 @@ class Interp(object):
 
     def bind_args(self, fv, args, kwargs):
         a = fv.node.args
-        if a.vararg or a.kwarg:
-            # only do_nothing(*argv, **argvk) in the tree
-            env_vars = {}
-            if a.vararg:
-                env_vars[a.vararg.arg] = tuple(args)
-            if a.kwarg:
-                env_vars[a.kwarg.arg] = dict(kwargs)
-            if a.args or a.posonlyargs:
-                raise OutsideSubset('mixed star-args')
-            return env_vars
         params = [x.arg for x in a.posonlyargs + a.args]
+        extra_pos, extra_kw = (), {}
+        if a.vararg or a.kwarg:
+            if a.vararg and len(args) > len(params):
+                extra_pos = tuple(args[len(params):])
+                args = list(args)[:len(params)]
+            if a.kwarg:
+                names = set(params) | set(x.arg for x in a.kwonlyargs)
+                extra_kw = dict((k, v) for k, v in kwargs.items() if k not in names)
+                kwargs = dict((k, v) for k, v in kwargs.items() if k in names)
         if len(args) > len(params):
             raise PyExc(self.make_exc(
                 'TypeError', '%s takes %d positional arguments but %d were '
@@ -1046,6 +1047,10 @@ class Interp(object):
         for x, d in zip(a.kwonlyargs, fv.kw_defaults):
             if x.arg not in vals:
                 vals[x.arg] = d
+        if a.vararg:
+            vals[a.vararg.arg] = extra_pos
+        if a.kwarg:
+            vals[a.kwarg.arg] = extra_kw
         return vals
 
     def call_function(self, fv, args, kwargs, site=None):
